@@ -278,8 +278,10 @@ pub async fn run_behaviour(b: &Value, dir: Option<PathBuf>) -> Vec<Value> {
         .unwrap_or_default();
     let storage = b["storage"].as_str().unwrap_or("mem");
     let valclass = b["valclass"].as_str().unwrap_or("ascii");
-    let model = Model::new(valclass, &big);
+    let mut model = Model::new(valclass, &big);
+    model.nanos = b["nanos"].as_u64().unwrap_or(0) as u32;
     let mut w = World::new(model, &replicas, &avoid, storage, dir, true).await;
+    w.ctx.borrow_mut().restyle = b["restyle"].as_u64().unwrap_or(0) as u8;
     w.emit(json!({"a":"Reset","id":b["id"].clone()}));
     let flush_rounds = b["flush"].as_u64().unwrap_or(2) as usize;
 
@@ -297,14 +299,21 @@ pub async fn run_behaviour(b: &Value, dir: Option<PathBuf>) -> Vec<Value> {
                     .collect();
                 let mut ops = vec![];
                 let mut opsj = vec![];
-                for t in &tasks {
+                let create_all = s["create"].as_bool().unwrap_or(true);
+                for (ti, t) in tasks.iter().enumerate() {
+                    // without `create`, the first task does not exist in the common base
+                    if !create_all && ti == 0 {
+                        continue;
+                    }
                     let j = json!({"k":"C","u":t,"p":"-","v":"-","t":0,"o":[]});
                     ops.push(w.ctx.borrow_mut().model.op_from_json(&j));
                     opsj.push(j);
                 }
-                w.edit(0, ops, opsj).await;
-                for i in 0..w.nodes.len() {
-                    w.full_sync(i).await;
+                if !ops.is_empty() {
+                    w.edit(0, ops, opsj).await;
+                    for i in 0..w.nodes.len() {
+                        w.full_sync(i).await;
+                    }
                 }
                 let prior = s["ops"].as_object().unwrap();
                 for rid in &replicas {
